@@ -13,12 +13,17 @@
     pairwise distinct headers (a header line, then at least one indented line) is read back as
     exactly these sections, in order; [C07_noise] - a section that is neither an access list nor
     an address group and mentions no access-group changes neither the access lists, nor their
-    bindings, nor the address groups.  What stays partial: the text level below the line
-    model (splitting the configuration text into lines, indentation, comment filter) and the
-    objects built from the sections are tied by correspondence; repeated headers (bodies append)
-    are covered by correspondence only. *)
+    bindings, nor the address groups.  Text level (`proofs/ConfigTextProofs.v`): [C07_text] - a
+    configuration TEXT made of header lines, body lines with ANY non-empty indentation and any
+    trailing blanks, and blank / "!" comment lines anywhere, joined by newlines, is read as
+    exactly its header and body lines, hence ([C07_text_sections]) as exactly the sections it
+    was assembled from; [C07_text_noise] - inserting a blank or comment line anywhere changes
+    nothing; [C07_text_indent] - the canonical layout with any indentation string gives the
+    sections back (the indentation width is irrelevant).  What stays partial: the objects built
+    from the sections are tied by correspondence; repeated headers (bodies append) and line
+    separators other than "\n" (str.splitlines) are covered by correspondence only. *)
 From V Require Import base.Prelude base.Strs gen.Tables model.Cfg model.Names model.Lex model.Config
-  proofs.ConfigProofs.
+  proofs.ConfigProofs proofs.ConfigTextProofs.
 
 Theorem C07_bindings_partial : forall d bs name dir k,
   bindings d = BOk bs ->
@@ -41,6 +46,45 @@ Theorem C07_noise : forall pl names d1 e d2, noise e ->
   acl_sections pl names (d1 ++ e :: d2) = acl_sections pl names (d1 ++ d2)
   /\ addgr_sections (d1 ++ e :: d2) = addgr_sections (d1 ++ d2).
 Proof. exact noise_irrelevant. Qed.
+
+(** the text level: raw lines (headers, indented bodies, noise) joined by newlines *)
+Theorem C07_text : forall rl,
+  forallb raw_ok rl = true -> header_first (flat_map erase rl) ->
+  config_lines (config_text rl) = flat_map erase rl.
+Proof. exact config_lines_raw. Qed.
+
+Theorem C07_text_sections : forall secs rl,
+  NoDup (map fst secs) -> Forall (fun s => snd s <> []) secs ->
+  forallb raw_ok rl = true -> flat_map erase rl = lines_of secs ->
+  parse_dic (config_lines (config_text rl)) = secs.
+Proof. exact config_text_sections. Qed.
+
+Theorem C07_text_noise : forall r1 n r2,
+  forallb raw_ok (r1 ++ RNoise n :: r2) = true -> header_first (flat_map erase (r1 ++ r2)) ->
+  config_lines (config_text (r1 ++ RNoise n :: r2)) = config_lines (config_text (r1 ++ r2)).
+Proof. exact config_text_noise. Qed.
+
+Theorem C07_text_indent : forall ind secs,
+  str_nonempty ind = true -> all_ws ind = true -> no_nl ind = true ->
+  forallb sec_ok secs = true ->
+  NoDup (map fst secs) -> Forall (fun s => snd s <> []) secs ->
+  parse_dic (config_lines (config_text (layout ind secs))) = secs.
+Proof. exact config_text_layout. Qed.
+
+(** non-vacuity: a text with indentation 1 and 4, a tab, trailing blanks, blank and comment lines *)
+Definition c07_raw : list raw :=
+  [RNoise "!"; RNoise "   "; RHdr "ip access-list extended A" "  ";
+   RBody " " "permit ip any any" ""; RNoise "! comment"; RBody "    " "deny ip any any" " ";
+   RNoise ""; RHdr "interface Gi1" ""; RBody (String "009" "") "ip access-group A in" ""].
+Example C07_text_nonvacuous :
+  forallb raw_ok c07_raw = true
+  /\ flat_map erase c07_raw
+     = lines_of [("ip access-list extended A", ["permit ip any any"; "deny ip any any"]);
+                 ("interface Gi1", ["ip access-group A in"])]
+  /\ parse_dic (config_lines (config_text c07_raw))
+     = [("ip access-list extended A", ["permit ip any any"; "deny ip any any"]);
+        ("interface Gi1", ["ip access-group A in"])].
+Proof. vm_compute. repeat split. Qed.
 
 Definition c07_example : res (list (string * list string * list string)) :=
   let text := "ip access-list extended A
